@@ -1,6 +1,7 @@
 import DicomModel.Model.Writer
 import DicomModel.Model.Valid
 import DicomModel.Lemmas.Header
+import DicomModel.Lemmas.Writer
 import DicomModel.Props.C03
 /-
 C04 — Encoded output is structurally valid DICOM with exact lengths and padding; every reported
@@ -436,6 +437,237 @@ theorem primitive_element_layout {e e' : Enc} (de : ElemHeader) (v : PValue)
             have : ¬ bs.length % 2 = 1 := by omega
             simp [Enc.push, padTo, this]
         · cases h1
+
+/-! ### writing never fails (`write_total`) and the writer is a structural recursion -/
+
+theorem push_ts (e : Enc) (bs : Bytes) (n : Nat) : (e.push bs n).ts = e.ts := rfl
+
+/-- the length the stateful encoder puts in the header -/
+def hdrLen (l : Nat) : Nat := if l = undefinedLen then l else evenLen l
+
+/-- a header whose (even-rounded) length fits its length field is written -/
+theorem elementHeader_total (e : Enc) (hd : ElemHeader)
+    (hfit : e.ts.explicit = true → hd.vr ∈ C03.ps35 → hdrLen hd.len ≤ 0xFFFF) :
+    ∃ e', e.elementHeader hd = .ok e' ∧ e'.ts = e.ts := by
+  unfold Enc.elementHeader
+  dsimp only
+  have hh : (if hd.len = undefinedLen then hd else { hd with len := evenLen hd.len })
+      = ⟨hd.tag, hd.vr, hdrLen hd.len⟩ := by
+    unfold hdrLen; split
+    · rename_i hu; cases hd; simp_all
+    · rfl
+  rw [hh]
+  obtain ⟨r, hr⟩ := (C03.encode_ok_iff e.ts ⟨hd.tag, hd.vr, hdrLen hd.len⟩).mpr (by
+    intro h
+    have := hfit h.1 h.2.1
+    have h3 := h.2.2
+    simp only at h3
+    omega)
+  obtain ⟨bs, n⟩ := r
+  rw [hr]; exact ⟨_, rfl, rfl⟩
+
+theorem sq_not_short : VR.SQ ∉ C03.ps35 := by decide
+theorem ob_not_short : VR.OB ∉ C03.ps35 := by decide
+
+/-- size condition on a primitive element for a given syntax: the padded value fits the length field
+of its header (32 bits; 16 bits for the PS3.5 short VRs in explicit VR) -/
+def FitsHeader (ts : Syntax) (vr : VR) (n : Nat) : Prop :=
+  n < 4294967295 ∧ (ts.explicit = true → vr ∈ C03.ps35 → n ≤ 0xFFFF)
+
+/-- under DS / IS a non-text value must be numeric (the code has `unreachable!()` for dates and tags) -/
+def DsIsOk (vr : VR) (v : PValue) : Prop :=
+  (vr = .DS ∨ vr = .IS) → match v with
+    | .date _ | .dateTime _ | .time _ | .tags _ => False
+    | _ => True
+
+/-- **`encode_primitive_element` never fails** for a value in the default repertoire that fits its header -/
+theorem primitiveElement_total (e : Enc) (de : ElemHeader) (v : PValue)
+    (hascii : ValueAscii v) (hds : DsIsOk de.vr v)
+    (hfit : FitsHeader e.ts de.vr (paddedValue e.ts.bigEndian de.vr v).length) :
+    ∃ e', e.primitiveElement de v = .ok e' ∧ e'.ts = e.ts := by
+  obtain ⟨hsz, hshort⟩ := hfit
+  unfold Enc.primitiveElement
+  split
+  · -- Str
+    rename_i text
+    have hvb : paddedValue e.ts.bigEndian de.vr (.str text) = padTo text (textPad de.vr) := rfl
+    rw [hvb] at hsz hshort
+    unfold Enc.textElement
+    rw [textEncode_ascii hascii]
+    simp only
+    unfold Enc.headerAndValue
+    have hm : (padTo text (textPad de.vr)).length % 4294967296 = (padTo text (textPad de.vr)).length :=
+      Nat.mod_eq_of_lt (by omega)
+    obtain ⟨e1, h1, h2⟩ := elementHeader_total e ⟨de.tag, de.vr, (padTo text (textPad de.vr)).length % 4294967296⟩ (by
+      intro hx hv
+      rw [hm]; unfold hdrLen
+      have hne : (padTo text (textPad de.vr)).length ≠ undefinedLen := by unfold undefinedLen; omega
+      simp only [hne, if_false, evenLen_of_even (padTo_even _ _) hsz]
+      exact hshort hx hv)
+    rw [h1]; exact ⟨_, rfl, by simp [Enc.push, h2]⟩
+  · -- Strs
+    rename_i texts
+    have hvb : paddedValue e.ts.bigEndian de.vr (.strs texts) = padTo (joinBackslash texts) (textPad de.vr) := rfl
+    rw [hvb] at hsz hshort
+    unfold Enc.textsElement
+    rw [textEncodeAll_ascii hascii]
+    simp only
+    unfold Enc.headerAndValue
+    have hm : (padTo (joinBackslash texts) (textPad de.vr)).length % 4294967296
+        = (padTo (joinBackslash texts) (textPad de.vr)).length := Nat.mod_eq_of_lt (by omega)
+    obtain ⟨e1, h1, h2⟩ := elementHeader_total e
+      ⟨de.tag, de.vr, (padTo (joinBackslash texts) (textPad de.vr)).length % 4294967296⟩ (by
+      intro hx hv
+      rw [hm]; unfold hdrLen
+      have hne : (padTo (joinBackslash texts) (textPad de.vr)).length ≠ undefinedLen := by unfold undefinedLen; omega
+      simp only [hne, if_false, evenLen_of_even (padTo_even _ _) hsz]
+      exact hshort hx hv)
+    rw [h1]; exact ⟨_, rfl, by simp [Enc.push, h2]⟩
+  · rename_i hnstr hnstrs
+    split
+    · -- DS / IS as text
+      rename_i hdsvr
+      unfold Enc.elementAsText
+      split
+      · -- Empty
+        obtain ⟨e1, h1, h2⟩ := elementHeader_total e ⟨de.tag, de.vr, 0⟩ (by
+          intro _ _; show hdrLen 0 ≤ 0xFFFF; decide)
+        exact ⟨e1, h1, h2⟩
+      · rename_i hnempty
+        have hnum : ∃ t, v.numText? = some t := by
+          have := hds hdsvr
+          cases v <;> simp_all [PValue.numText?]
+        obtain ⟨t, ht⟩ := hnum
+        have hvb : paddedValue e.ts.bigEndian de.vr v = padTo t 0x20 := by
+          unfold paddedValue
+          split
+          · exact absurd rfl (hnstr _)
+          · exact absurd rfl (hnstrs _)
+          · exact absurd rfl hnempty
+          · simp [hdsvr, ht]
+        rw [hvb, padTo_length] at hsz hshort
+        simp only [ht]
+        have hmod : t.length % 4294967296 = t.length := Nat.mod_eq_of_lt (by unfold evenUp at hsz; omega)
+        obtain ⟨e1, h1, h2⟩ := elementHeader_total e ⟨de.tag, de.vr, evenLen (t.length % 4294967296)⟩ (by
+          intro hx hv
+          rw [hmod, evenLen_eq_evenUp (by unfold evenUp at hsz; omega)]
+          unfold hdrLen
+          have hne : evenUp t.length ≠ undefinedLen := by unfold undefinedLen; omega
+          simp only [hne, if_false, evenLen_of_even (by unfold evenUp; omega) hsz]
+          exact hshort hx hv)
+        rw [h1]
+        simp only
+        split
+        · exact ⟨_, rfl, h2⟩
+        · exact ⟨_, rfl, h2⟩
+    · -- binary path
+      rename_i hdsvr
+      have hcnt := primitive_count e.ts.bigEndian v
+      have hround := byte_len_even_rounding e.ts.bigEndian v
+      have hvblen : (paddedValue e.ts.bigEndian de.vr v).length = evenUp v.calculateByteLen := by
+        have : paddedValue e.ts.bigEndian de.vr v = padTo (encodePrimitive e.ts.bigEndian v).1 (binPad de.vr) := by
+          unfold paddedValue
+          split
+          · exact absurd rfl (hnstr _)
+          · exact absurd rfl (hnstrs _)
+          · rfl
+          · simp [hdsvr]
+        rw [this, padTo_length, ← hcnt, hround]
+      rw [hvblen] at hsz hshort
+      have hmod : v.calculateByteLen % 4294967296 = v.calculateByteLen :=
+        Nat.mod_eq_of_lt (by unfold evenUp at hsz; omega)
+      obtain ⟨e1, h1, h2⟩ := elementHeader_total e ⟨de.tag, de.vr, v.calculateByteLen % 4294967296⟩ (by
+        intro hx hv
+        rw [hmod]; unfold hdrLen
+        have hne : v.calculateByteLen ≠ undefinedLen := by unfold undefinedLen; unfold evenUp at hsz; omega
+        simp only [hne, if_false, evenLen_eq_evenUp (by unfold evenUp at hsz; omega : v.calculateByteLen + 1 < 4294967296)]
+        exact hshort hx hv)
+      rw [h1]
+      simp only
+      generalize encodePrimitive e.ts.bigEndian v = p
+      obtain ⟨bs, n⟩ := p
+      simp only
+      split
+      · exact ⟨_, rfl, by simp [Enc.push, h2]⟩
+      · exact ⟨_, rfl, by simp [Enc.push, h2]⟩
+
+mutual
+/-- well-formedness for writing in syntax `ts`: token-level `WF`, text in the default repertoire, every
+value fits the length field of its header -/
+def Elem.Writable (ts : Syntax) : Elem → Prop
+  | .prim _ vr _ v => ValueAscii v ∧ DsIsOk vr v ∧ FitsHeader ts vr (paddedValue ts.bigEndian vr v).length
+  | .seq _ _ items => Items.Writable ts items
+  | .pix _ _ => True
+def Items.Writable (ts : Syntax) : Items → Prop
+  | .nil => True
+  | .cons _ elems rest => Elems.Writable ts elems ∧ Items.Writable ts rest
+def Elems.Writable (ts : Syntax) : Elems → Prop
+  | .nil => True
+  | .cons e rest => Elem.Writable ts e ∧ Elems.Writable ts rest
+end
+
+theorem recFrags_ts (frags : List Bytes) : ∀ e : Enc, (recFrags e frags).ts = e.ts := by
+  induction frags with
+  | nil => intro e; rfl
+  | cons f r ih =>
+    intro e
+    simp only [recFrags, ih]
+    unfold recFrag
+    split
+    · rfl
+    · unfold Enc.writeBytes
+      dsimp only
+      split <;> rfl
+
+theorem recBot_ts (bot : List Nat) (e : Enc) : (recBot e bot).ts = e.ts := by
+  unfold recBot; split <;> rfl
+
+mutual
+theorem recElem_total (ts : Syntax) : ∀ (el : Elem), Elem.Writable ts el → ∀ (e : Enc), e.ts = ts →
+    ∃ e', recElem e el = .ok e' ∧ e'.ts = ts
+  | .prim tag vr len v, hw, e, he => by
+    obtain ⟨h1, h2, h3⟩ := hw
+    subst he
+    obtain ⟨e', h, ht⟩ := primitiveElement_total e ⟨tag, vr, len⟩ v h1 h2 h3
+    exact ⟨e', h, ht⟩
+  | .seq tag len items, hw, e, he => by
+    obtain ⟨e1, h1, t1⟩ := elementHeader_total e ⟨tag, .SQ, undefinedLen⟩ (fun _ h => absurd h sq_not_short)
+    obtain ⟨e2, h2, t2⟩ := recItems_total ts items hw e1 (t1.trans he)
+    exact ⟨e2.seqDelimiter, by simp [recElem, exBind, h1, h2], t2⟩
+  | .pix bot frags, _, e, he => by
+    obtain ⟨e1, h1, t1⟩ := elementHeader_total e ⟨Tag.pixelData, .OB, undefinedLen⟩ (fun _ h => absurd h ob_not_short)
+    refine ⟨(recFrags (recBot e1 bot) frags).seqDelimiter, by simp [recElem, exBind, h1], ?_⟩
+    show (recFrags (recBot e1 bot) frags).ts = ts
+    rw [recFrags_ts, recBot_ts, t1, he]
+theorem recItems_total (ts : Syntax) : ∀ (its : Items), Items.Writable ts its → ∀ (e : Enc), e.ts = ts →
+    ∃ e', recItems e its = .ok e' ∧ e'.ts = ts
+  | .nil, _, e, he => ⟨e, rfl, he⟩
+  | .cons len elems rest, hw, e, he => by
+    obtain ⟨e1, h1, t1⟩ := recElems_total ts elems hw.1 (e.itemHeader undefinedLen) he
+    obtain ⟨e2, h2, t2⟩ := recItems_total ts rest hw.2 e1.itemDelimiter t1
+    exact ⟨e2, by simp [recItems, exBind, h1, h2], t2⟩
+theorem recElems_total (ts : Syntax) : ∀ (es : Elems), Elems.Writable ts es → ∀ (e : Enc), e.ts = ts →
+    ∃ e', recElems e es = .ok e' ∧ e'.ts = ts
+  | .nil, _, e, he => ⟨e, rfl, he⟩
+  | .cons el rest, hw, e, he => by
+    obtain ⟨e1, h1, t1⟩ := recElem_total ts el hw.1 e he
+    obtain ⟨e2, h2, t2⟩ := recElems_total ts rest hw.2 e1 t1
+    exact ⟨e2, by simp [recElems, exBind, h1, h2], t2⟩
+end
+
+/-- **The data set writer is a structural recursion** (all depths, default strategy): the token state
+machine produces exactly what the recursive writer `recElems` produces. -/
+theorem write_tree_eq_rec (ts : Syntax) (t : Elems) (hwf : t.WF) :
+    writeDataset ts .setUndefined t = exBind (recElems (Enc.new ts) t) (fun e => .ok e.out) :=
+  writeDataset_eq_rec ts t hwf
+
+/-- **Writing never fails and never panics** for a well-formed data set of any depth (default strategy):
+no `Err`, no `panic` outcome of the model writer. -/
+theorem write_total (ts : Syntax) (t : Elems) (hwf : t.WF) (hw : Elems.Writable ts t) :
+    ∃ bs, writeDataset ts .setUndefined t = .ok bs := by
+  rw [write_tree_eq_rec ts t hwf]
+  obtain ⟨e', h, _⟩ := recElems_total ts t hw (Enc.new ts) rfl
+  exact ⟨e'.out, by simp [exBind, h]⟩
 
 /-! ### regression witness of a repaired defect (fix f2b04a4)
 
